@@ -83,3 +83,52 @@ pub fn run_case(master: u64, idx: u64) -> InprocCase {
         "peak": g.peak, "started": g.started, "ok": ok, "wall_ms": wall as u64});
     InprocCase { coq, json }
 }
+
+/// A failing run with threaded in-process evaluation (C06): the first call returns NaN as soon as
+/// another call is executing; the others keep executing for 400 ms.  Recorded: how many calls of
+/// the objective function were still executing when `launch` returned.
+pub fn run_fail_case(master: u64, idx: u64) -> InprocCase {
+    let mut r = Prng::new(master ^ idx.wrapping_mul(0x94D049BB133111EB)).fork(0xF41);
+    let nc = 2 + r.below(4);
+    let spec = spec_util::from_yaml_str("x:\n  type: real\n  init: 1.0\n  scale: 1.0\n").unwrap();
+    let st = Arc::new((Mutex::new(St::default()), Condvar::new()));
+    let st2 = st.clone();
+    let f = make_obj_func(move |_v| {
+        let (m, cv) = &*st2;
+        let mut g = m.lock().unwrap();
+        let me = g.started;
+        g.started += 1;
+        g.running += 1;
+        cv.notify_all();
+        if me == 0 {
+            // wait (at most 4 s) until a second call is executing, then fail
+            let deadline = Instant::now() + Duration::from_secs(4);
+            while g.running < 2 {
+                let now = Instant::now();
+                if now >= deadline {
+                    break;
+                }
+                let (g2, _) = cv.wait_timeout(g, deadline - now).unwrap();
+                g = g2;
+            }
+            g.running -= 1;
+            return Some(f64::NAN);
+        }
+        drop(g);
+        std::thread::sleep(Duration::from_millis(400));
+        let mut g = m.lock().unwrap();
+        g.running -= 1;
+        Some(1.0)
+    });
+    let cfg = AlgoConfigBuilder::new().num_concurrent(nc).build().unwrap();
+    let res = sync_launch::launch(spec, f, cfg, vec![TerminationCriterion::NumObjFuncEval(50)], None, true, None);
+    let running = st.0.lock().unwrap().running;
+    let started = st.0.lock().unwrap().started;
+    let is_err = res.is_err();
+    let coq = format!("Definition m{} : meta_obs := MInprocFail {} {}%N {}%N {}%N {}.\n", idx, idx, nc, started, running, if is_err { "true" } else { "false" });
+    let json = serde_json::json!({"stream": "meta", "idx": idx, "kind": "inprocfail", "nc": nc, "started": started,
+        "still_executing_at_return": running, "result": format!("{:?}", res.map(|r| r.best_seen.obj_func_val).map_err(|e| e.to_string()))});
+    // let the stragglers finish before the next case reuses the machine
+    std::thread::sleep(Duration::from_millis(50));
+    InprocCase { coq, json }
+}
